@@ -18,7 +18,7 @@ from . import common as C
 
 PROP = "C18"; LEVEL = "exploration"; P_TIER = True
 SCOPE = {"quick": "45 public operations (GroupBy reductions incl. transform, agg, apply/median/quantile, cumulative, rolling, shift/diff, ema with and without times, head/tail/nth, group_nearby_members, ratio, density, crosstab, value_counts; emas.ema) "
-                  "and 32 array-level entry points (emas.ema_grouped called positionally / by keyword / with times, numba.group_* at n_threads 1 and 2, rolling_*, cum*, group_nearby_members) x each array argument (values, second of two values, boolean mask, times, second key) x length offset -2,-1,+1,+2 "
+                  "and 32 array-level entry points (emas.ema_grouped called positionally / by keyword / with times, numba.group_* at n_threads 1 and 2, rolling_*, cum*, group_nearby_members) x each array argument (values, second of two values, boolean mask, times, second key) x length offset -2,-1,+1,+2 (for -1/+1 also with the other optional array arguments absent, and with all of them of the same wrong length) "
                   "x key rows in {[0,0],[0,1,0],[0,0,1,1]} x keys as ndarray / pandas Series x argument as ndarray / pandas Series; pandas index of the argument in {reversed, shifted, duplicated, string labels} against keys with a default or a custom index "
                   "(or against the other pandas arguments when the keys are plain; not for numba.*, whose keys are integer codes without an index); aligned controls (all plain, all on the keys' index, pandas on index-free keys, plain on indexed keys); positional masks with positions in {-n-1,-n,-1,0,n-1,n,n+1}",
          "thorough": "as quick, plus polars / pyarrow containers for the perturbed argument and key rows [0,1,0,1,2]"}
@@ -226,6 +226,10 @@ def cases(tier, seed):
                             for cont in conts:
                                 if cont in ("pl", "pa") and arg in ("times", "columns"): continue
                                 yield {"op": name, "keys": keys, "kk": kk, "arg": arg, "pert": ["len", off], "cont": cont}
+                                # the other array arguments absent (mask=None, a single value array) / of the SAME wrong length: only the comparison with the key rows can reject these
+                                if off in (-1, 1) and cont == "np" and kk == "np" and o["ref"] != "values":
+                                    for others in ("absent", "same"):
+                                        yield {"op": name, "keys": keys, "kk": kk, "arg": arg, "pert": ["len", off], "cont": cont, "others": others}
     def indexes():
         for name, o in OPS.items():
             if name.startswith("numba."): continue        # array-level entry points: their keys are integer codes without an index, the statement's index clause does not apply
@@ -265,10 +269,15 @@ def build(case):
     other_index = pd.Index([7 + i for i in range(n)]) if cont == "pdx" else idx0          # pdx: pandas arguments on their own common index, keys index-free
     a = {"values": None, "values2": None, "mask": None, "times": None, "columns": None}
     misaligned = False; what = "aligned"
+    others = case.get("others", "present")
     for arg in _used_args(o, case):
+        if arg != parg and others == "absent" and arg in ("mask", "values2") and case["op"] != "GroupBy.ratio": continue
+        if arg != parg and others == "same" and pert is not None and pert[0] == "len":
+            a[arg] = _wrap_cont(_base(arg, n + pert[1]), other_cont, None); continue
         if arg == parg and pert is not None:
             if pert[0] == "len":
-                m = n + pert[1]; a[arg] = _wrap_cont(_base(arg, m), cont, None); misaligned = True; what = f"{arg} ({cont}) has {m} rows, keys have {n}"
+                m = n + pert[1]; a[arg] = _wrap_cont(_base(arg, m), cont, None); misaligned = True
+                what = f"{arg} ({cont}) has {m} rows, keys have {n}" + {"present": "", "absent": "; no other optional array argument", "same": f"; the other array arguments have {m} rows too"}[others]
             elif pert[0] == "idx":
                 a[arg] = _wrap_cont(_base(arg, n), "pd", _pert_index(pert[1], idx0)); misaligned = True
                 what = f"{arg} is a pandas Series with index {list(a[arg].index)}; keys ({kk}) / other arguments ({other_cont}) have index {list(idx0)}"
